@@ -3,7 +3,7 @@
    uniqueItems of the declarations. *)
 From Coq Require Import String List NArith ZArith Bool Lia.
 From J5V.lib Require Import Outcome Strcase.
-From J5V.model Require Import RulesDecl RulesWrite RulesSpec Validate RulesSpecDec RulesRead RulesNested RulesNestedSem RulesOneof RulesCompile RulesCompileTree.
+From J5V.model Require Import RulesDecl RulesWrite RulesSpec Validate RulesSpecDec RulesRead RulesNested RulesNestedSem RulesOneof RulesInlineEnum RulesCompile RulesCompileTree.
 From J5V.proofs Require Import RulesProofs RulesReadProofs RulesNestedProofs RulesNestedSemProofs RulesOneofProofs RulesCompileProofs.
 Import ListNotations.
 
@@ -94,3 +94,29 @@ Proof.
   exact (c12_members re_ok re_match pat_sem (proj1 He) (proj1 (proj2 He)) (engine_id62_bool re_ok re_match pat_sem He)
                      env Hwf ds 0%N os0 fvs Hm Hev Hw Hty).
 Qed.
+
+(* ---- a field over an inline enum ---- *)
+(* a field over an enum carries no pattern and its items are not messages: always evaluable *)
+Lemma enum_field_evaluable re_ok d r l : item_of (p_ty d) = TEnum r l -> evaluable re_ok d = true.
+Proof.
+  intro H. unfold evaluable. rewrite pattern_of_ok, <- unique_refused_spec.
+  change (elem_ty (p_ty d)) with (item_of (p_ty d)). rewrite H. cbn [pattern_of andb].
+  unfold unique_refused. destruct (p_ty d) as [t|a sf t|a t]; cbn [item_of] in H; subst; try reflexivity.
+  destruct a as [a|]; [|reflexivity]. destruct (ar_uniq a) as [[|]|]; reflexivity.
+Qed.
+
+Theorem c12_inline_enum_full :
+  forall re_ok re_match pat_sem, engine_ok re_ok re_match pat_sem ->
+  forall idx d i c fv r l,
+    let env := env_of_decl (ie_decl (p_name d) i) in
+    wf_env env = true -> key_placement_ok d = true -> item_of (p_ty d) = TEnum r l ->
+    write_inline_enum idx d i = Ok c -> fvalue_typed d fv = true ->
+    (validate_sem re_ok re_match (defined_numbers env) (fst c) fv = VAccept <-> rule_sem pat_sem env d fv) /\
+    (validate_sem re_ok re_match (defined_numbers env) (fst c) fv = VReject <-> ~ rule_sem pat_sem env d fv).
+Proof.
+  intros re_ok re_match pat_sem He idx d i c fv r l env Hwf Hkp Ht Hw Hty.
+  unfold write_inline_enum in Hw. apply obind_ok in Hw. destruct Hw as (o & Ho & Hw). inversion Hw; subst c. cbn [fst].
+  exact (c12_main re_ok re_match pat_sem (proj1 He) (proj1 (proj2 He)) (engine_id62_bool re_ok re_match pat_sem He)
+                  env idx d o fv Hwf Hkp (enum_field_evaluable re_ok d r l Ht) Ho Hty).
+Qed.
+
